@@ -286,6 +286,10 @@ impl CallHelper {
         args.prepare_registers(&mut regs);
         regs.update(Register::Rax, fn_addr);
         regs.update(Register::Rip, rip);
+        // The stopped frame may keep live data in the 128-byte red zone below rsp (leaf functions),
+        // and the ABI wants rsp 16-byte aligned at a call: run the callee below the red zone.
+        let sp = ccx.regs.value(Register::Rsp);
+        regs.update(Register::Rsp, (sp - 128) & !0xf);
         regs.persist(ccx.pid)?;
 
         debug!(target: "debugger", "call a function, wait until breakpoint are hit");
